@@ -268,3 +268,57 @@ int mexCallMATLAB(int nlhs, mxArray *plhs[], int nrhs, mxArray *prhs[], const ch
   }
   throw MexError("mexCallMATLAB: no handler for '" + fn + "'");
 }
+
+// ---------------------------------------------------------------- C API for the Python emulator
+extern "C" void mexFunction(int nlhs, mxArray *plhs[], int nrhs, const mxArray *prhs[])
+    __attribute__((weak));
+typedef int (*CHandler)(int, mxArray **, int, mxArray **, const char *);
+static CHandler g_c_handler = nullptr;
+extern "C" {
+void emu_set_handler(CHandler h) {
+  g_c_handler = h;
+  if (h) mock_set_call_handler([](int nl, mxArray **pl, int nr, mxArray **pr,
+                                  const std::string &name) {
+    return g_c_handler(nl, pl, nr, pr, name.c_str()) != 0; });
+}
+mxArray *emu_double(double v) { return mxCreateDoubleScalar(v); }
+mxArray *emu_logical(int v) { return mxCreateLogicalScalar(v != 0); }
+mxArray *emu_string(const char *s) { return mxCreateString(s); }
+mxArray *emu_uint64(unsigned long long v) {
+  mxArray *a = mxCreateNumericMatrix(1, 1, mxUINT64_CLASS, mxREAL);
+  memcpy(mxGetData(a), &v, 8);
+  return a;
+}
+mxArray *emu_object(const char *cls) { return mock_new_object(cls); }
+mxArray *emu_enum(const char *cls, double v) { return mock_new_enum(cls, v); }
+void emu_set_prop(mxArray *obj, const char *name, mxArray *v) { mock_set_property(obj, name, v); }
+mxArray *emu_get_prop(mxArray *obj, const char *name) { return mock_get_property_ref(obj, name); }
+mxArray *emu_dup(mxArray *a) { return mxDuplicateArray(a); }
+void emu_free(mxArray *a) { mxDestroyArray(a); }
+const char *emu_class(mxArray *a) { return mxGetClassName(a); }
+int emu_classid(mxArray *a) { return (int)mxGetClassID(a); }
+double emu_scalar(mxArray *a) { return mxGetScalar(a); }
+unsigned long long emu_u64(mxArray *a) { unsigned long long v = 0; memcpy(&v, mxGetData(a), 8); return v; }
+int emu_is_enum(mxArray *a) { return mock_is_enum(a) ? 1 : 0; }
+unsigned long emu_numel(mxArray *a) { return (unsigned long)(mxGetM(a) * mxGetN(a)); }
+int emu_string_of(mxArray *a, char *buf, int n) { return mxGetString(a, buf, n); }
+unsigned long emu_live_arrays() { return (unsigned long)mock_live_arrays(); }
+void emu_run_atexit() { mock_run_atexit(); }
+unsigned long emu_atexit_registered() { return (unsigned long)mock_atexit_registered(); }
+// call the gateway; returns 0 ok, 1 MATLAB error (message in err), 2 other C++ exception
+int emu_call(int nlhs, mxArray **plhs, int nrhs, mxArray **prhs, char *err, int nerr) {
+  try {
+    mexFunction(nlhs, plhs, nrhs, (const mxArray **)prhs);
+    return 0;
+  } catch (const MexError &e) {
+    snprintf(err, nerr, "%s", e.what());
+    return 1;
+  } catch (const std::exception &e) {
+    snprintf(err, nerr, "%s", e.what());
+    return 2;
+  } catch (...) {
+    snprintf(err, nerr, "unknown exception");
+    return 3;
+  }
+}
+}
